@@ -1,5 +1,6 @@
 (* C04 — Streaming iteration yields the same data for every batch limit. *)
-From QCo.Lemmas Require Import Tactics CodecL BodyL ReaderL.
+From QCo.Lemmas Require Import Tactics CodecL BodyL ReaderL FileL IterL.
+From QCo.Model Require Import Writer.
 From QCo.Model Require Import Base Consts DType Codec Reader.
 Open Scope N_scope.
 
@@ -25,3 +26,26 @@ Proof. intros d st limit H. exact (proj1 (proj2 (proj2 (proj2 (proj2 (after_foot
 Theorem C04_terminated_only_by_footer : forall d st o,
   r_term st = false -> r_term (fst (r_do d st o)) = true -> snd (r_do d st o) = ROItem IFooter.
 Proof. exact term_only_set_by_footer. Qed.
+
+(* The full statement, on the decompressor state machine, for every file the writer model emits
+   (every data type, delta order 0..=7, GCDs on/off, any chunk list incl. chunks with no numbers,
+   any tables satisfying chunk_ok) and EVERY limit >= 1: draining the iterator yields the flags
+   once, then for every chunk its metadata followed by its batches, then the footer once, then
+   nothing (state unchanged); each batch is non-empty and at most [limit] long, a chunk has no
+   batch iff it holds no numbers, the concatenation of a chunk's batches is the chunk; and the
+   numbers obtained are those of whole-file decompression. *)
+Theorem C04_iteration : forall d order gcds chunks bytes limit fuel,
+  order <= 7 ->
+  Forall (chunk_ok d (writer_flags order gcds)) chunks ->
+  file_bytes d (writer_flags order gcds) chunks = Ok bytes ->
+  1 <= limit ->
+  (2 + 2 * length chunks + length (concat (map fst chunks)) <= fuel)%nat ->
+  let r := drain_iter fuel d limit (fresh bytes) in
+  exists outs,
+    snd r = map ROItem outs /\
+    iter_spec d (writer_flags order gcds) limit chunks outs /\
+    r_term (fst r) = true /\
+    (forall l, r_step d (fst r) (RNext l) = (fst r, RONone)) /\
+    flat_map out_nums (snd r) = concat (map fst chunks) /\
+    decode_file d bytes = Ok (flat_map out_nums (snd r)).
+Proof. exact iteration_spec. Qed.
